@@ -1600,7 +1600,9 @@ class C08S(PropOracle):
         c = o.cluster or {}
         faults = w.data.get("faults") or []
         transient_only = bool(faults) and all(f[1].startswith("cmd:squeue") and f[2] == "fail-all" for f in faults)
-        if w.data.get("faulty") and not transient_only:
+        # a full disk at one write of the consolidated file kills that round; the rows it was moving must survive it
+        edquot_only = bool(faults) and all(f[2] == "edquot" and "processed_results.csv" in str(f[1]) for f in faults)
+        if w.data.get("faulty") and not transient_only and not edquot_only:
             return
         if not c.get("is_complete"):
             if transient_only:
@@ -1619,11 +1621,13 @@ class C08S(PropOracle):
                 self.v(w, f"job {n} finished (exit {o.exits[n]}) but its row is nowhere on disk at completion", "row-lost")
             if rr and rr[0][2] != "processed_results.csv":
                 self.v(w, f"row of {n} is still in {rr[0][2]} at completion (never collected)", "row-not-collected")
-            if rr and states.get(n) != "done":
+            if rr and states.get(n) != "done" and not edquot_only:
+                # (a round that dies of a write error between collecting rows and recording them leaves collected rows
+                # unreported; the property quantifies over schedules, C11 owns faults - only the row clauses apply then)
                 self.v(w, f"job {n} has a result but no submitter round was told: state {states.get(n)} at completion", "completion-not-reported")
             if rr and wrote and rr[0][1] == "finished" and int(rr[0][0]) not in o.exits.get(n, []):
                 self.v(w, f"row of {n} carries return code {rr[0][0]}, its process delivered {o.exits.get(n)}", "row-misattributed")
-        if c.get("completed_jobs") != sum(1 for v in states.values() if v == "done"):
+        if c.get("completed_jobs") != sum(1 for v in states.values() if v == "done") and not edquot_only:
             self.v(w, f"completed_jobs={c.get('completed_jobs')} but {sum(1 for v in states.values() if v == 'done')} jobs were reported done", "reported-count")
         for p in [w.rootp + "processed_results.csv"]:
             txt = read_rows(p)
